@@ -60,7 +60,7 @@ func optRuns() []optRun {
 
 func c08probes(t []float64) []geojson.Object {
 	pt := func(a, b int) geometry.Point { return geometry.Point{X: t[a], Y: t[b]} }
-	return []geojson.Object{
+	out := []geojson.Object{
 		geojson.NewPoint(pt(1, 1)), geojson.NewSimplePoint(pt(2, 3)), geojson.NewPoint(pt(3, 3)),
 		geojson.NewRect(geometry.Rect{Min: geometry.Point{X: -1000, Y: -1000}, Max: geometry.Point{X: 1000, Y: 1000}}),
 		geojson.NewRect(geometry.Rect{Min: pt(1, 1), Max: pt(3, 3)}),
@@ -68,7 +68,17 @@ func c08probes(t []float64) []geojson.Object {
 		geojson.NewPolygon(geometry.NewPoly([]geometry.Point{pt(1, 1), pt(3, 1), pt(3, 3), pt(1, 1)}, nil, nil)),
 		geojson.NewCircle(pt(1, 1), 500000, 16),
 		geojson.NewMultiPoint([]geometry.Point{pt(1, 1), pt(4, 4)}),
+		// probes in the range of the large documents (tokens 10..63)
+		geojson.NewPoint(pt(16, 16)), geojson.NewPoint(pt(12, 10)), geojson.NewPoint(pt(25, 25)), geojson.NewSimplePoint(pt(26, 16)),
+		geojson.NewRect(geometry.Rect{Min: pt(12, 12), Max: pt(18, 18)}),
+		geojson.NewLineString(geometry.NewLine([]geometry.Point{pt(12, 11), pt(30, 11), pt(30, 14)}, nil)),
+		geojson.NewPolygon(geometry.NewPoly([]geometry.Point{pt(15, 15), pt(40, 15), pt(40, 40), pt(15, 15)}, nil, nil)),
 	}
+	// one point probe on many individual segments of the large line / ring (a lost index entry shows only there)
+	for c := 12; c < 48; c += 3 {
+		out = append(out, geojson.NewPoint(pt(c, 16)), geojson.NewPoint(pt(c+1, 17)), geojson.NewSimplePoint(pt(c, 10)), geojson.NewPoint(pt(60, c)))
+	}
+	return out
 }
 
 func predicateAnswers(o geojson.Object, probes []geojson.Object) (s string) {
